@@ -74,7 +74,8 @@ Proof.
   destruct Hwf as (Ht & Hp & Hl & Hc).
   destruct o; cbn [run_op aligned_op] in *.
   - (* allocate *)
-    assert (Hok : addr <= size a /\ addr mod 4 = 0 /\ n mod 4 = 0) by (apply (allocate_ok_iff a addr n ge); eauto).
+    assert (Hok : addr <= size a /\ addr mod 4 = 0 /\ n mod 4 = 0).
+    { destruct (allocate_accepted _ _ _ _ _ E) as (O1 & O2 & O3 & _). auto. }
     destruct (allocate_spec _ _ _ _ _ E) as (_ & Hs & _ & Kt & _ & Kp & _ & Kl & Kc & _).
     unfold wf_cells, cell_ok. rewrite Kt, Kp, Kl, Kc, Hs. repeat split.
     + rewrite Forall_map. eapply Forall_impl; [|exact Ht]. unfold cell_ok, kappa. intros k [H1 H2]. destruct (N.leb_spec addr k); lia.
@@ -181,4 +182,27 @@ Proof.
   { induction l as [|o r IH]; intros a Hal Hwf; cbn [fold_left]; [exact Hwf|].
     inversion Hal; subst. apply IH; [assumption|]. apply step_preserves; assumption. }
   intros H. apply G; [exact H|]. unfold wf_cells. cbn. repeat split; constructor.
+Qed.
+
+(* usize: after an accepted allocate the new size is a valid vector length and, on a well-formed archive, every annotation key
+   (cell or label address) lies inside it - so the key additions `pointer + count` of adjust_text / adjust_labels /
+   adjust_pointers / the c-string loop, written as plain sums in the model, stay far below 2^64 in the code *)
+Theorem allocate_keys_usize a addr n ge a' :
+  wf_cells a -> allocate a addr n ge = Ok a' ->
+  size a' <= ISIZE_MAX /\
+  Forall (fun k => k + 4 <= ISIZE_MAX) (am_keys (a_text a')) /\ Forall (fun k => k + 4 <= ISIZE_MAX) (am_keys (a_ptrs a')) /\
+  Forall (fun k => k <= ISIZE_MAX) (am_keys (a_labels a')) /\
+  Forall (fun q => Forall (fun k => k + 4 <= ISIZE_MAX) (snd q)) (a_cstrs a').
+Proof.
+  intros Hwf E.
+  assert (Hs : size a' <= ISIZE_MAX).
+  { destruct (allocate_accepted _ _ _ _ _ E) as (_ & _ & _ & Hsz & _).
+    destruct (allocate_spec _ _ _ _ _ E) as (_ & Hs & _). rewrite Hs. exact Hsz. }
+  assert (Hwf' : wf_cells a').
+  { assert (G := step_preserves a (OAllocate addr n ge) I Hwf). unfold bstep in G. cbn [run_op] in G. rewrite E in G. exact G. }
+  destruct Hwf' as (Ht & Hp & Hl & Hc). split; [exact Hs|]. unfold cell_ok in *.
+  split; [eapply Forall_impl; [|exact Ht]; cbn beta; intros; lia|].
+  split; [eapply Forall_impl; [|exact Hp]; cbn beta; intros; lia|].
+  split; [eapply Forall_impl; [|exact Hl]; cbn beta; intros; lia|].
+  eapply Forall_impl; [|exact Hc]. intros q H. eapply Forall_impl; [|exact H]. cbn beta; intros; lia.
 Qed.
